@@ -416,7 +416,7 @@ fn part_a(maxlen: usize, acc: &mut Acc, worker: usize, nworkers: usize) {
 // ---------------------------------------------------------------------------------------------
 // part B: adversarial operands x every operand position x every follower
 // ---------------------------------------------------------------------------------------------
-const EXPR_CORPUS: [&str; 68] = [
+const EXPR_CORPUS: [&str; 73] = [
     "then",
     "map",
     "and_then",
@@ -486,6 +486,12 @@ const EXPR_CORPUS: [&str; 68] = [
     "&x",
     "|v| v as Vec<u8>",
     "Vec::<u8>::new()?",
+    // closures whose parameter list and body spell an operator when the pipes are read as punctuation (`| n >` = enumerate)
+    "|n| n > 2",
+    "|n: u8| n >= 5",
+    "move |n| n >> 1",
+    "|n| n",
+    "|n| n > 1 || n < 0",
 ];
 const TYPE_CORPUS: [&str; 8] = [
     "Vec<Vec<i32>>",
